@@ -344,7 +344,7 @@ class Table:
             raise Unsupported("%s.%s.__init__: first parameter is not self" % k)
         params = [x.arg for x in a.args[1:]] + [x.arg for x in a.kwonlyargs]
         stores = {}       # attr -> list of value exprs
-        rebound = set()
+        rebound = {}      # param -> first source position where the local name is rebound
         forwards = {}     # param -> (target, q)
         n_super = 0
         for n in ast.walk(init):
@@ -364,7 +364,8 @@ class Table:
             for t, v in targets:
                 for el in ([t] if not isinstance(t, (ast.Tuple, ast.List)) else ast.walk(t)):
                     if isinstance(el, ast.Name) and el.id in params:
-                        rebound.add(el.id)
+                        pos = (el.lineno, el.col_offset)
+                        rebound[el.id] = min(rebound.get(el.id, pos), pos)
                     if (isinstance(el, ast.Attribute) and isinstance(el.value, ast.Name)
                             and el.value.id == "self"):
                         if isinstance(t, (ast.Tuple, ast.List)) or isinstance(n, ast.AugAssign):
@@ -384,31 +385,35 @@ class Table:
                             raise Unsupported("%s.%s.__init__: *args in parent call" % k)
                         if isinstance(arg, ast.Name) and arg.id in params:
                             q = self._positional_name(target, i)
-                            forwards.setdefault(arg.id, []).append((target, q))
+                            forwards.setdefault(arg.id, []).append((target, q, (arg.lineno, arg.col_offset)))
                     for kw in n.keywords:
                         if kw.arg is None:
                             if isinstance(kw.value, ast.Name) and kw.value.id == (a.kwarg.arg if a.kwarg else None):
                                 continue      # **kwargs passed on: covered by the `**` parameter
                             raise Unsupported("%s.%s.__init__: **mapping in parent call" % k)
                         if isinstance(kw.value, ast.Name) and kw.value.id in params:
-                            forwards.setdefault(kw.value.id, []).append((target, kw.arg))
+                            forwards.setdefault(kw.value.id, []).append(
+                                (target, kw.arg, (kw.value.lineno, kw.value.col_offset)))
         out = []
         for p in params:
             st = stores.get(p)
             if st is not None:
-                if len(st) == 1 and isinstance(st[0], ast.Name) and st[0].id == p and p not in rebound:
+                isreb = (len(st) == 1 and st[0] is not None and p in rebound
+                         and rebound[p] < (st[0].lineno, st[0].col_offset))
+                if len(st) == 1 and isinstance(st[0], ast.Name) and st[0].id == p and not isreb:
                     out.append((p, ("SV",)))
                 else:
                     txt = " | ".join("?" if v is None else ast.unparse(v) for v in st)
-                    if p in rebound:
+                    if isreb:
                         txt = "(rebound) " + txt
                     out.append((p, ("SM", txt[:70])))
             elif p in forwards:
                 fw = forwards[p]
-                if len(fw) != 1 or p in rebound:
-                    out.append((p, ("SM", "forwarded %d times%s" % (len(fw), " (rebound)" if p in rebound else ""))))
+                isreb = p in rebound and rebound[p] < fw[0][2]
+                if len(fw) != 1 or isreb:
+                    out.append((p, ("SM", "forwarded %d times%s" % (len(fw), " (rebound)" if isreb else ""))))
                 else:
-                    target, q = fw[0]
+                    target, q = fw[0][:2]
                     if target[0] == "cls":
                         out.append((p, ("SF", self.key[target[1:]], q)))
                     else:
@@ -496,6 +501,70 @@ class Table:
             return ("GR", self.key[owner])
         return ("GG", self.key[owner])
 
+    def ctor_params(self, k):
+        """Parameter names of the effective __init__ (first one along the MRO)."""
+        r = self.find_method(k, "__init__")
+        if r is None or r[0] == "ext":
+            return set()
+        a = r[1].args
+        return set(x.arg for x in a.args[1:] + a.kwonlyargs)
+
+    def _mutation_facts(self, k):
+        """(entry, owner, param): public method `entry` (fit or an apply-type method) of class k
+        reaches, through calls on self, a function of class `owner` that assigns to self.<param>,
+        a constructor parameter of k."""
+        params = self.ctor_params(k)
+        out = []
+        if not params:
+            return out
+        for entry in ["fit"] + APPLY_METHODS:
+            r = self.find_method(k, entry)
+            if r is None or r[0] == "ext":
+                continue
+            seen, todo = set(), [r]
+            while todo:
+                owner, fn = todo.pop()
+                if (owner, fn.name) in seen:
+                    continue
+                seen.add((owner, fn.name))
+                for n in ast.walk(fn):
+                    tg = []
+                    if isinstance(n, ast.Assign):
+                        tg = n.targets
+                    elif isinstance(n, (ast.AugAssign, ast.AnnAssign)):
+                        tg = [n.target]
+                    elif isinstance(n, (ast.For, ast.comprehension)):
+                        tg = [n.target]
+                    elif isinstance(n, ast.Call):
+                        f = n.func
+                        if isinstance(f, ast.Name) and f.id == "setattr" and n.args and \
+                                isinstance(n.args[0], ast.Name) and n.args[0].id == "self":
+                            if len(n.args) > 1 and isinstance(n.args[1], ast.Constant):
+                                if n.args[1].value in params:
+                                    out.append((entry, self.key[owner], n.args[1].value))
+                            else:
+                                raise Unsupported("%s.%s.%s: setattr(self, <dynamic>)" % (owner + (fn.name,)))
+                        if isinstance(f, ast.Attribute) and isinstance(f.value, ast.Name) and f.value.id == "self":
+                            r2 = self.find_method(k, f.attr)
+                            if r2 is not None and r2[0] != "ext":
+                                todo.append(r2)
+                        elif (isinstance(f, ast.Attribute) and isinstance(f.value, ast.Call)
+                              and isinstance(f.value.func, ast.Name) and f.value.func.id == "super"):
+                            r2 = self.find_method(k, f.attr, after=owner)
+                            if r2 is not None and r2[0] != "ext":
+                                todo.append(r2)
+                    for t in tg:
+                        for el in ast.walk(t):
+                            if (isinstance(el, ast.Attribute) and isinstance(el.value, ast.Name)
+                                    and el.value.id == "self" and el.attr in params
+                                    and isinstance(el.ctx, ast.Store)):
+                                out.append((entry, self.key[owner], el.attr))
+        res = []
+        for x in out:
+            if x not in res:
+                res.append(x)
+        return res
+
     def _row(self, k):
         c = self.allc[k]
         bases = []
@@ -506,8 +575,10 @@ class Table:
             st = self.guard_status(k, mname)
             if st is not None:
                 methods.append((mname, st))
+        mutates = self._mutation_facts(k)
         return {"key": self.key[k], "module": k[0], "name": k[1], "bases": bases,
                 "init": self._init_facts(k), "methods": methods, "path": c["path"],
+                "mutates": mutates,
                 "abstract": k[1].startswith("_") or k[1].startswith("Base")}
 
 
@@ -775,8 +846,10 @@ def to_coq(table):
         init = "None" if r["init"] is None else "(Some [%s])" % "; ".join(
             "(%s, %s)" % (cstr(p), _store(st)) for p, st in r["init"])
         meths = "[%s]" % "; ".join("(%s, %s)" % (cstr(m), _guard(g)) for m, g in r["methods"])
-        rows.append(" Row %s %s [%s]\n  %s\n  %s" % (
-            cstr(r["key"]), cstr(r["module"]), "; ".join(cstr(b) for b in r["bases"]), init, meths))
+        muts = "[%s]" % "; ".join("(%s, %s, %s)" % (cstr(m), cstr(o), cstr(q)) for m, o, q in r["mutates"])
+        rows.append(" Row %s %s [%s]\n  %s\n  %s\n  %s" % (
+            cstr(r["key"]), cstr(r["module"]), "; ".join(cstr(b) for b in r["bases"]), init, meths,
+            muts))
     return HEADER % "sktime" + ";\n".join(rows) + "\n].\n"
 
 
@@ -798,7 +871,8 @@ def deviations(table):
     """Python mirror of the Coq predicates of coq/C04/Table.v with an empty exception list (used to
     generate the `*_static` cases; the verdict that counts is the Coq theorem over the same table).
 
-    Returns (ctor, guard): ctor = list of dicts {cls, param, how, via} with (cls, param) the ROOT
+    Returns (ctor, guard, mut): mut = list of {cls, method, param} (a method other than __init__
+    assigns to a constructor parameter); ctor = list of dicts {cls, param, how, via} with (cls, param) the ROOT
     class/parameter where the deviation is written (`via` = classes that inherit it by forwarding);
     guard = list of dicts {cls, owner, method, status, what}."""
     bykey = {r["key"]: r for r in table.rows.values()}
@@ -840,17 +914,22 @@ def deviations(table):
                 guard.append({"cls": r["key"], "module": r["module"], "owner": g[1], "method": m,
                               "status": g[0], "what": g[2] if g[0] == "GU" else
                               "a path completes without reaching the guard"})
+    mut = [{"cls": r["key"], "module": r["module"], "method": m, "owner": o, "param": q}
+           for r in bykey.values() for m, o, q in r["mutates"]]
     return (sorted(ctor.values(), key=lambda d: (d["cls"], d["param"])),
-            sorted(guard, key=lambda d: (d["cls"], d["method"])))
+            sorted(guard, key=lambda d: (d["cls"], d["method"])),
+            sorted(mut, key=lambda d: (d["cls"], d["method"], d["param"])))
 
 
 if __name__ == "__main__":
     import sys
     repo = sys.argv[1] if len(sys.argv) > 1 else "/repo"
     t = extract(repo)
-    ctor, guard = deviations(t)
+    ctor, guard, mut = deviations(t)
     print("classes", len(t.allc), "estimators", len(t.rows))
     for d in ctor:
         print("CTOR ", d["cls"], d["param"], "|", d["how"], "| via", ",".join(d["via"]))
     for d in guard:
         print("GUARD", d["cls"], d["owner"], d["method"], d["status"], d["what"])
+    for d in mut:
+        print("MUT  ", d["cls"], d["method"], d["owner"], d["param"])
